@@ -20,6 +20,8 @@ import time
 
 HERE = os.path.dirname(os.path.dirname(os.path.abspath(__file__)))
 REPO = os.environ.get("VERIF_REPO", "/repo")
+# evidence goes to /verif/evidence; maintenance runs against scratch copies of the repository set VERIF_EVIDENCE_DIR elsewhere
+EVDIR = os.environ.get("VERIF_EVIDENCE_DIR") or os.path.join(HERE, "evidence")
 CBMC_CHECKS = ["--bounds-check", "--pointer-check", "--div-by-zero-check",
                "--signed-overflow-check", "--undefined-shift-check",
                "--pointer-overflow-check"]
@@ -388,7 +390,7 @@ def run_check(prop, jobs, tier, replay_fn=None, extra_assumptions=(), level_text
                 continue
             seen_k.add(k["id"])
             print("KNOWN-FINDING: property=%s %s [%s: %s]" % (prop, k["what"], j.id, f["name"]))
-        os.makedirs(os.path.join(HERE, "evidence", "replay"), exist_ok=True)
+        os.makedirs(os.path.join(EVDIR, "replay"), exist_ok=True)
         done_jobs = set()
         vjobs = []
         for (j, o, f) in viol:
@@ -404,7 +406,7 @@ def run_check(prop, jobs, tier, replay_fn=None, extra_assumptions=(), level_text
                     traces[j.id] = to
         fam_cache = {}
         for (j, o) in vjobs:
-            rp = os.path.join(HERE, "evidence", "replay", "%s_%s.txt" % (prop, j.id.replace("/", "_")))
+            rp = os.path.join(EVDIR, "replay", "%s_%s.txt" % (prop, j.id.replace("/", "_")))
             jf = [x[2] for x in viol if x[0].id == j.id]
             found = False
             with open(rp, "w") as fh:
@@ -442,7 +444,7 @@ def run_check(prop, jobs, tier, replay_fn=None, extra_assumptions=(), level_text
                 if code == 0:
                     code = 2
             elif st.get("violations"):
-                rp = os.path.join(HERE, "evidence", "replay", "%s_%s.txt" % (prop, st["job"]["job"]))
+                rp = os.path.join(EVDIR, "replay", "%s_%s.txt" % (prop, st["job"]["job"]))
                 with open(rp, "w") as fh:
                     fh.write("property: %s\njob: %s\n%s\nfailing facts on the real object files:\n" % (prop, st["job"]["job"], st["job"].get("note", "")))
                     for v in st["violations"]:
@@ -530,6 +532,6 @@ def write_evidence(prop, tier, seed, sel, outs, wall, assumptions, level_text, u
         "wall_s": round(wall, 1),
         "violations": violations,
     }
-    os.makedirs(os.path.join(HERE, "evidence"), exist_ok=True)
-    with open(os.path.join(HERE, "evidence", prop + ".json"), "w") as fh:
+    os.makedirs(os.path.join(EVDIR), exist_ok=True)
+    with open(os.path.join(EVDIR, prop + ".json"), "w") as fh:
         json.dump(ev, fh, indent=1)
